@@ -3,7 +3,6 @@ package checks
 import (
 	"fmt"
 	"os"
-	"strings"
 	"time"
 
 	"github.com/glebziz/fs_db/verifh/conc"
@@ -54,7 +53,17 @@ var c08Programs = []prog{
 	{"rr-reader-old-tx-gc", "I:Sa.b12.Sa|b02.g0a.g0a.r0|X|r1"},
 }
 
-func concCheck(id, tier string, quick, thorough time.Duration, progs []prog, qb, tb int, rule string) int {
+// genPlan says which generated programs (dbconc.Alphabet.Programs) a check explores next to its named ones.
+type genPlan struct {
+	al   *dbconc.Alphabet
+	what string // for the evidence
+	// items appends the generated items for the tier
+	items func(tier string, add func(ps []string, bound int))
+}
+
+// concCheck explores the named programs up to qb / tb deviations, optionally (wa) once more with the
+// writer preference of sync.RWMutex modelled at one deviation less, and the generated programs of gp.
+func concCheck(id, tier string, quick, thorough time.Duration, progs []prog, qb, tb int, wa bool, gp *genPlan, rule string) int {
 	budget := hk.NewBudget(dur(tier, quick, thorough))
 	rp := hk.NewReporter(id)
 	pool, err := conc.NewPool(0)
@@ -68,95 +77,108 @@ func concCheck(id, tier string, quick, thorough time.Duration, progs []prog, qb,
 		b = tb
 		cap = 4_000_000 // executions per program and bound; a capped bound is reported as not completed
 	}
-	var items []conc.Item
-	for _, p := range progs {
-		items = append(items, conc.Item{Name: "db", Params: p.src, MaxBound: b, MaxExecs: cap, Label: id + "/" + p.name})
-	}
-	sum := conc.RunItems(rp, pool, items, budget, verbose())
-	ev := &hk.Evidence{PropertyID: id, Tier: tier, Level: "model_checking", Coverage: sum.Coverage(rule),
-		Assumptions: []string{"interleavings at visible operations (locks, atomics, channel and wait-group operations, timers, KV transactions, file-system calls); race freedom between them is C15",
-			"in-memory Badger engine, virtual clock; one pool worker unless stated", "the recorded call/return history of every execution is checked for linearizability against the reference model by exhaustive search"}}
-	return finish(rp, ev, budget)
-}
-
-func c06(tier string) int {
-	return concCheckGen("C06", tier, 420*time.Second, 60*time.Minute, c06Programs, 2, 3,
-		"every schedule with at most N deviations (preemptions, early timers, non-default select arms) of 10 client programs (2-4 clients: autocommit, RU/RC transactions, a GC actor, shared keys) over inline.Open..Close on the real stack; oracle: call/return history linearizable w.r.t. the sequential model (C01-C03), no deadlock, no panic, no leaked thread")
-}
-
-// concCheckGen is concCheck plus the systematically generated two-thread programs (dbconc.Programs):
-// quick: one item per thread at bound 1; thorough: one item per thread at bound 2 and two items at bound 1.
-func concCheckGen(id, tier string, quick, thorough time.Duration, progs []prog, qb, tb int, rule string) int {
-	budget := hk.NewBudget(dur(tier, quick, thorough))
-	rp := hk.NewReporter(id)
-	pool, err := conc.NewPool(0)
-	if err != nil {
-		return 3
-	}
-	defer pool.Close()
-	b := qb
-	var cap int64
-	if tier == "thorough" {
-		b = tb
-		cap = 4_000_000
-	}
 	var gen []conc.Item
-	for _, p := range dbconc.Programs(1) {
-		gb := 1
-		if tier == "thorough" {
-			gb = 2
-		} else if strings.HasPrefix(p, "I:Sa.Sa.Sb") || strings.HasSuffix(p, "|X") {
-			continue // quick: the single-version initial state, no GC actor (the named programs have one)
-		}
-		gen = append(gen, conc.Item{Name: "db", Params: p, MaxBound: gb, Label: id + "/generated"})
-	}
-	if tier == "thorough" {
-		for _, p := range dbconc.Programs(2)[len(dbconc.Programs(1)):] {
-			gen = append(gen, conc.Item{Name: "db", Params: p, MaxBound: 1, Label: id + "/generated"})
-		}
+	if gp != nil {
+		gp.items(tier, func(ps []string, bound int) {
+			for _, p := range ps {
+				gen = append(gen, conc.Item{Name: "db", Params: p, MaxBound: bound, Label: id + "/generated"})
+			}
+		})
 	}
 	t0 := time.Now()
 	sumG := conc.RunMany(rp, pool, gen, budget, false)
-	if verbose() {
+	if verbose() && gp != nil {
 		fmt.Fprintf(os.Stderr, "generated programs: %d items, %d executions, %.1fs\n", len(gen), sumG.Execs, time.Since(t0).Seconds())
 	}
 	var items []conc.Item
 	for _, p := range progs {
 		items = append(items, conc.Item{Name: "db", Params: p.src, MaxBound: b, MaxExecs: cap, Label: id + "/" + p.name})
 	}
-	// lock-discipline pass: the same programs with the writer preference of sync.RWMutex modelled (a
-	// pending writer blocks new readers), one deviation less — recursive read locking deadlocks only then
-	for _, p := range progs {
-		items = append(items, conc.Item{Name: "db", Params: p.src + ";wa=1", MaxBound: b - 1, MaxExecs: cap, Label: id + "/" + p.name + "+writer-preference"})
+	if wa {
+		// lock-discipline pass: the same programs with the writer preference of sync.RWMutex modelled (a
+		// pending writer blocks new readers), one deviation less — recursive read locking deadlocks only then
+		for _, p := range progs {
+			items = append(items, conc.Item{Name: "db", Params: p.src + ";wa=1", MaxBound: b - 1, MaxExecs: cap, Label: id + "/" + p.name + "+writer-preference"})
+		}
 	}
 	sum := conc.RunItems(rp, pool, items, budget, verbose())
-	sum.Execs += sumG.Execs
-	sum.Steps += sumG.Steps
-	sum.Nodes += sumG.Nodes
-	sum.Scenarios += sumG.Scenarios
-	sum.ViolExecs += sumG.ViolExecs
-	sum.AllComplete = sum.AllComplete && sumG.AllComplete
-	for k, v := range sumG.Outcomes {
-		sum.Outcomes["generated: "+k] += v
+	if gp != nil {
+		sum.Execs += sumG.Execs
+		sum.Steps += sumG.Steps
+		sum.Nodes += sumG.Nodes
+		sum.Scenarios += sumG.Scenarios
+		sum.ViolExecs += sumG.ViolExecs
+		sum.AllComplete = sum.AllComplete && sumG.AllComplete
+		for k, v := range sumG.Outcomes {
+			sum.Outcomes["generated: "+k] += v
+		}
+		if len(sumG.Samples) > 6 {
+			sumG.Samples = sumG.Samples[:6]
+		}
+		sum.Samples = append(sum.Samples, sumG.Samples...)
+		rule += "; plus generated programs: " + gp.what
 	}
-	if len(sumG.Samples) > 6 {
-		sumG.Samples = sumG.Samples[:6]
+	cov := sum.Coverage(rule)
+	if gp != nil {
+		cov["generated_programs"] = len(gen)
 	}
-	sum.Samples = append(sum.Samples, sumG.Samples...)
-	cov := sum.Coverage(rule + "; plus every generated program of two client threads with one item each (two items each at bound 1 in the thorough tier) from an alphabet of 11 items (autocommit Set/Delete/Get/GetKeys/Create and whole RU/RC transactions) on key a, with and without a GC actor, from two initial states")
-	cov["generated_programs"] = len(gen)
 	ev := &hk.Evidence{PropertyID: id, Tier: tier, Level: "model_checking", Coverage: cov,
 		Assumptions: []string{"interleavings at visible operations (locks, atomics, channel and wait-group operations, timers, KV transactions, file-system calls); race freedom between them is C15",
 			"in-memory Badger engine, virtual clock; one pool worker unless stated", "the recorded call/return history of every execution is checked for linearizability against the reference model by exhaustive search"}}
 	return finish(rp, ev, budget)
 }
 
+var genC06 = &genPlan{al: &dbconc.AlphaC06,
+	what: "every unordered pair of client threads with one item each from an alphabet of 11 items (autocommit Set/Delete/Get/GetKeys/Create and whole RU/RC transactions) on key a, pairs of pure readers excluded: quick from the single-version state at 1 deviation; thorough from two initial states at 2 deviations, with a GC actor at 1, and two items against one at 1",
+	items: func(tier string, add func([]string, int)) {
+		al := &dbconc.AlphaC06
+		if tier == "thorough" {
+			for _, init := range al.Inits {
+				add(al.Programs(1, 1, init, false), 2)
+				add(al.Programs(1, 1, init, true), 1)
+			}
+			add(al.Programs(2, 1, al.Inits[0], false), 1)
+			return
+		}
+		// quick: the single-version initial state, no GC actor (the named programs have one)
+		add(al.Programs(1, 1, al.Inits[0], false), 1)
+	}}
+
+var genC07 = &genPlan{al: &dbconc.AlphaC07,
+	what: "every unordered pair of committing clients from an alphabet of 8 items (RR/SER transactions with intersecting and disjoint write sets, RC and autocommit writers, a rolled-back writer) on keys a, b: 2 deviations quick; 3 deviations, and a GC actor at 1, thorough",
+	items: func(tier string, add func([]string, int)) {
+		al := &dbconc.AlphaC07
+		if tier == "thorough" {
+			add(al.Programs(1, 1, al.Inits[0], false), 3)
+			add(al.Programs(1, 1, al.Inits[0], true), 1)
+			return
+		}
+		add(al.Programs(1, 1, al.Inits[0], false), 2)
+	}}
+
+var genC08 = &genPlan{al: &dbconc.AlphaC08,
+	what: "every pair of a snapshot reader (RR get a/get b/get a; SER keys/get a/get b; RR get a/keys/get a) or writer with a writer (autocommit Set a+Set b, Delete a, RC commit of a and b, RR set a + delete b commit, RC rollback) on keys a, b: 2 deviations quick; 3 deviations, and a GC actor at 1, thorough",
+	items: func(tier string, add func([]string, int)) {
+		al := &dbconc.AlphaC08
+		if tier == "thorough" {
+			add(al.Programs(1, 1, al.Inits[0], false), 3)
+			add(al.Programs(1, 1, al.Inits[0], true), 1)
+			return
+		}
+		add(al.Programs(1, 1, al.Inits[0], false), 2)
+	}}
+
+func c06(tier string) int {
+	return concCheck("C06", tier, 420*time.Second, 60*time.Minute, c06Programs, 2, 3, true, genC06,
+		"every schedule with at most N deviations (preemptions, early timers, non-default select arms) of 10 client programs (2-4 clients: autocommit, RU/RC transactions, a GC actor, shared keys) over inline.Open..Close on the real stack, and of the same programs with the writer preference of sync.RWMutex modelled at N-1; oracle: call/return history linearizable w.r.t. the sequential model (C01-C03), no deadlock, no panic, no leaked thread")
+}
+
 func c07(tier string) int {
-	return concCheck("C07", tier, 120*time.Second, 25*time.Minute, c07Programs, 2, 3,
+	return concCheck("C07", tier, 120*time.Second, 25*time.Minute, c07Programs, 2, 3, false, genC07,
 		"every schedule with at most N deviations of programs in which 2-3 snapshot transactions (and an autocommit or RC writer) with intersecting write sets, all begun and written sequentially, commit concurrently; oracle: history linearizable w.r.t. the model, in which the second committer fails with ErrTxSerialization and its writes vanish (final reads by an independent client)")
 }
 
 func c08(tier string) int {
-	return concCheck("C08", tier, 300*time.Second, 40*time.Minute, c08Programs, 2, 3,
+	return concCheck("C08", tier, 300*time.Second, 40*time.Minute, c08Programs, 2, 3, false, genC08,
 		"every schedule with at most N deviations of programs with a snapshot reader (Begin, repeated reads, GetKeys) against multi-key committers, autocommit writers, other Begins and the GC actor; oracle: history linearizable w.r.t. the model with Begin as the snapshot point (atomic visibility of every commit, stable re-reads, no lost version)")
 }
